@@ -2,6 +2,7 @@
 and an arbitrary-bytes stream through the real Archive::open / Decompressor::open and the model's deserialize."""
 import os
 PROP = "C14"
+SUBCHECKS = ["C14O"]   # second stage: Decompressor::open (params, stream lookups, sample names) on arbitrary bytes (props/C14O.v)
 AREAS = ["archive"]
 PROFILES = ["dev", "release"]
 THEOREMS = ["open_total_safe", "alloc_bounded", "reads_alloc_bounded", "open_ok_iff", "prefix_rejected_partial",
